@@ -164,6 +164,17 @@ theorem tgtC1_clean (o : Int) : (x : P) → x.wf = true → ∀ d, x.depth ≤ d
     refine CleanL.cons_loop ?_ (CleanL.nil _)
     exact CleanL.cons_plain (c := .ifThen (o + csz) (.unary (S "not") (o + csz) cond) [exitRepeatStmt (o + csz)] [])
       (by simp [Node.cls]) (by simp [Node.cls]) (by simp [Node.cls]) hb
+  | .loopX csz cond b1 csz2 cond2 t b2, h, d, hd => by
+    simp only [P.depth] at hd
+    obtain ⟨d', rfl⟩ : ∃ d', d = d' + 1 := ⟨d - 1, by omega⟩
+    obtain ⟨hb1, _, hb2, _⟩ := wf_loopX.1 h
+    have c1 := tgtC_clean (o + csz + 3) b1 hb1 d' (by omega)
+    have c2 := tgtC_clean (o + csz + 3 + P.sizes b1 + csz2 + 3 + P.sizes t + 3) b2 hb2 d' (by omega)
+    simp only [tgtC1, rawLoop]
+    refine CleanL.cons_loop ?_ (CleanL.nil _)
+    refine CleanL.cons_plain (c := .ifThen (o + csz) (.unary (S "not") (o + csz) cond) [exitRepeatStmt (o + csz)] [])
+      (by simp [Node.cls]) (by simp [Node.cls]) (by simp [Node.cls]) ?_
+    exact CleanL.append c1 (CleanL.cons_plain (by simp [Node.cls]) (by simp [Node.cls]) (by simp [Node.cls]) c2)
 theorem tgtC_clean (o : Int) : (ps : List P) → P.wfs ps = true → ∀ d, P.depths ps ≤ d → CleanL d (tgtC o ps)
   | [], _, d, _ => by simp only [tgtC]; exact CleanL.nil d
   | x :: ps, h, d, hd => by
